@@ -134,13 +134,14 @@ let lookup_of (l : n list list) : n list lookup =
 
 let case_textdiff h : string =
   let kind = get h "tok" in
-  let d = text_diff h kind false in
+  let repair = get_def h "repair" "0" = "1" in
+  let d = text_diff h kind repair in
   let num, den = diff_ratio d.ops (ni (List.length d.olds)) (ni (List.length d.news)) in
   let changes = unres (iter_all_changes (lookup_of d.olds) (lookup_of d.news) d.ops) in
   (* "direct": capture_diff_slices on the token slices, no deadline *)
   let direct =
     let oa = Array.of_list (List.map str_of d.olds) and na = Array.of_list (List.map str_of d.news) in
-    fst (unres (capture_diff (parse_alg (get h "alg")) None !dbg false (item_oracles oa na) O (ni (Array.length oa)) O (ni (Array.length na))))
+    fst (unres (capture_diff (parse_alg (get h "alg")) None !dbg repair (item_oracles oa na) O (ni (Array.length oa)) O (ni (Array.length na))))
   in
   Printf.sprintf "ops=%s direct=%s nt=%d alg=%s probes=%d ratio=%ld otoks=%s ntoks=%s changes=%s perop_same=1" (fmt_ops d.ops)
     (fmt_ops direct)
